@@ -510,12 +510,12 @@ Fixpoint reply_lines (fuel : nat) (s : bytes) : option (list (bytes * bytes) * b
     end
   end.
 Definition N_STATUS := [83;84;65;84;85;83].
-(* (rterr, status, body) given the stream and the code with which it ended (0 = EOF): status from the first Status
+(* (rterr, status, status text, body) given the stream and the code with which it ended (0 = EOF): status from the first Status
    header (its first word through Atoi), else 200; a non-numeric status makes RoundTrip fail (rterr 3).
    Only replies whose header block is closed by an empty line (or that are completely empty and end cleanly) are
    modelled: otherwise textproto's look-ahead reads swallow errors and read on past END_REQUEST, whose EOF is
    not sticky (the END_REQUEST body is then parsed as a record header: "invalid header version"). *)
-Definition parse_reply (st : bytes) (code : Z) : option (Z * Z * bytes) :=
+Definition parse_reply (st : bytes) (code : Z) : option (Z * Z * bytes * bytes) :=
   match reply_lines (S (length st)) st with
   | None => None
   | Some (hs, body, done) =>
@@ -523,12 +523,16 @@ Definition parse_reply (st : bytes) (code : Z) : option (Z * Z * bytes) :=
     else
     let sv := match find (fun kv => bytes_eqb N_STATUS (fst kv)) hs with Some (_, v) => v | None => [] end in
     match sv with
-    | [] => Some (0, 200, body)
+    | [] => Some (0, 200, [], body)
     | _ =>
-      let w := match index_byte 32 sv with Some i => firstn i sv | None => sv end in
+      (* strings.SplitN(status, " ", 2): code word, then the reason text (resp.Status) *)
+      let '(w, text) := match index_byte 32 sv with
+                        | Some i => (firstn i sv, skipn (S i) sv)
+                        | None => (sv, [])
+                        end in
       match parse_dec w with
-      | Some n => if n <? 100000000 then Some (0, n, body) else None
-      | None => if forallb (fun b => is_digit b || (b =? 45) || (b =? 43)) w then None else Some (3, 0, [])
+      | Some n => if n <? 100000000 then Some (0, n, text, body) else None
+      | None => if forallb (fun b => is_digit b || (b =? 45) || (b =? 43)) w then None else Some (3, 0, [], [])
       end
     end
   end.
